@@ -821,105 +821,292 @@ func (c *cli) ruleHaveDiff(r *Report) {
 		}
 		n++
 		r.Fn(fnName(fn))
-		for _, ret := range returnsOf(fn) {
-			hv := ret.Results[1]
-			// every way the boolean can be true must be the edge "rendered != sentinel"
-			var check func(v ssa.Value, blk *ssa.BasicBlock, predIdx int, seen map[ssa.Value]bool) (bool, string)
-			check = func(v ssa.Value, blk *ssa.BasicBlock, predIdx int, seen map[ssa.Value]bool) (bool, string) {
-				if b, ok := constBool(v); ok {
-					if !b {
-						return true, ""
-					}
-					// constant true arriving over phi edge predIdx of blk
-					if blk == nil {
-						return false, "returns constant true"
-					}
-					pred := blk.Preds[predIdx]
-					for _, bb := range fn.Blocks {
-						cond, tE, fE, ok := branchEdges(bb)
-						if !ok {
-							continue
-						}
-						bo, ok := cond.(*ssa.BinOp)
-						if !ok || (bo.Op != token.NEQ && bo.Op != token.EQL) {
-							continue
-						}
-						k, isK := strip(bo.Y).(*ssa.Const)
-						if !isK || k.Value == nil {
-							continue
-						}
-						rn := c.renderCallName(bo.X)
-						if rn == "" {
-							continue
-						}
-						e := tE
-						if bo.Op == token.EQL {
-							e = fE
-						}
-						if !edgeDominatesOrIs(e, pred, blk) {
-							continue
-						}
-						if want := sentinelOf[rn]; want != k.Value.ExactString() {
-							return false, fmt.Sprintf("output of %s is compared with %s, but the library's empty rendering is %s", rn, k.Value.ExactString(), want)
-						}
-						return true, ""
-					}
-					return false, "the boolean becomes true on an edge that is not `rendered output != empty rendering`"
-				}
-				if seen[v] {
-					return true, ""
-				}
-				seen[v] = true
-				if phi, ok := v.(*ssa.Phi); ok {
-					for i, e := range phi.Edges {
-						if ok, why := check(e, phi.Block(), i, seen); !ok {
-							return false, why
-						}
-					}
-					return true, ""
-				}
-				// computed directly: must be the comparison itself
-				if bo, ok := v.(*ssa.BinOp); ok && bo.Op == token.NEQ {
-					// rendered != sentinel, possibly with both sides chosen per
-					// format in the same arms (phis of one block, edge by edge)
-					var paired func(x, y ssa.Value, depth int) bool
-					paired = func(x, y ssa.Value, depth int) bool {
-						if rn := c.renderCallName(x); rn != "" {
-							k, isK := strip(y).(*ssa.Const)
-							return isK && k.Value != nil && k.Value.ExactString() == sentinelOf[rn]
-						}
-						px, okx := x.(*ssa.Phi)
-						py, oky := y.(*ssa.Phi)
-						if !okx || !oky || px.Block() != py.Block() || len(px.Edges) != len(py.Edges) || depth > 3 {
-							return false
-						}
-						for i := range px.Edges {
-							if !paired(px.Edges[i], py.Edges[i], depth+1) {
-								return false
-							}
-						}
-						return true
-					}
-					if paired(bo.X, bo.Y, 0) || paired(bo.Y, bo.X, 0) {
-						return true, ""
-					}
-				}
-				return false, "the boolean is computed from " + valueName(v) + ", not from comparing the rendered output with the empty rendering"
-			}
-			ok, why := check(hv, nil, 0, map[ssa.Value]bool{})
-			key := c.key(fn, "haveDiff")
-			if len(returnsOf(fn)) > 1 {
-				key = c.key(fn, fmt.Sprintf("haveDiff@ret%d", ret.Block().Index))
-			}
-			_ = key
-			r.Check(ok, rule, c.key(fn, "haveDiff"), c.w.Pos(ret.Pos()),
-				"the difference flag is true exactly on the edges where the rendered output differs from the library's empty rendering",
-				"the exit status is not derived from the rendered diff: "+why)
-		}
+		ok, why, pos := c.haveDiffTable(fn)
+		r.Check(ok, rule, c.key(fn, "haveDiff"), pos,
+			"for every -f value the difference flag is true exactly when the rendered output differs from the library's empty rendering of that format",
+			"the exit status is not derived from the rendered diff: "+why)
 	}
 	if n == 0 {
 		r.Bad(rule, c.tag+":diff-routine", "-", "no diff routine (func returning string, bool, error) found in package main")
 	}
+}
+
+// haveDiffTable evaluates the diff routine's boolean result as a predicate over
+// the rendered string, per value of -f: with the string bound in turn to every
+// constant it is compared with anywhere (and to "something else"), the
+// boolean must be decided and equal to `string != empty rendering of the
+// renderer that produced it`. Branches on flags and on the bound string are
+// pruned; phis are resolved over the edges that remain; in-package helpers are
+// evaluated with their parameters bound to the caller's arguments.
+func (c *cli) haveDiffTable(fn *ssa.Function) (bool, string, string) {
+	formats := append([]string{}, c.flagConsts(fn, "f")...)
+	consts := c.stringConstsCompared()
+	consts[otherValue] = true
+	checked := 0
+	pos := c.w.Pos(fn.Pos())
+	for _, f := range formats {
+		assign := map[string]string{"f": f}
+		reach, cut := c.reachCutUnderV(fn, assign, nil)
+		for _, ret := range returnsOf(fn) {
+			if !reach[ret.Block()] {
+				continue
+			}
+			if e := c.resolveUnder(ret.Results[2], reach, cut); !isNilConst(e) {
+				continue
+			}
+			x := c.resolveUnder(ret.Results[0], reach, cut)
+			rn := c.renderCallName(x)
+			if rn == "" {
+				if k, isK := strip(x).(*ssa.Const); isK && k.Value != nil {
+					// a constant rendering on a success path: decided by R-CLI/P
+					continue
+				}
+				return false, fmt.Sprintf("with -f %s the returned text is %s, not the result of a library renderer", f, valueName(x)), c.w.Pos(ret.Pos())
+			}
+			want := sentinelOf[rn]
+			for _, k := range sortedKeys(consts) {
+				ev := &boolEval{c: c, depth: 0}
+				bind := map[ssa.Value]string{}
+				c.bindAliases(fn, x, k, reach, cut, bind)
+				val, known, why := ev.eval(fn, ret.Results[1], ret.Block(), assign, bind)
+				shown := k
+				if k == otherValue {
+					shown = "any other text"
+				}
+				if !known {
+					return false, fmt.Sprintf("with -f %s and output %s the boolean is undecided: %s", f, shown, why), c.w.Pos(ret.Pos())
+				}
+				if val != (k != want) {
+					return false, fmt.Sprintf("with -f %s (%s, empty rendering %s) an output of %s gives difference=%v", f, rn, want, shown, val), c.w.Pos(ret.Pos())
+				}
+				checked++
+			}
+		}
+	}
+	if checked == 0 {
+		return false, "no successful return of the diff routine renders through the library under any -f value", pos
+	}
+	return true, "", pos
+}
+
+// stringConstsCompared: every string constant used in an (in)equality in package main.
+func (c *cli) stringConstsCompared() map[string]bool {
+	out := map[string]bool{}
+	for _, fn := range c.fns {
+		allInstrs(fn, func(in ssa.Instruction) {
+			bo, ok := in.(*ssa.BinOp)
+			if !ok || (bo.Op != token.EQL && bo.Op != token.NEQ) {
+				return
+			}
+			for _, v := range []ssa.Value{bo.X, bo.Y} {
+				if k, isK := strip(v).(*ssa.Const); isK && k.Value != nil && k.Value.Kind() == constant.String {
+					out[k.Value.ExactString()] = true
+				}
+			}
+		})
+	}
+	return out
+}
+
+// reachCutUnderV is reachUnderV that also returns the edges decided away.
+func (c *cli) reachCutUnderV(fn *ssa.Function, assign map[string]string, assignV map[ssa.Value]string) (map[*ssa.BasicBlock]bool, EdgeSet) {
+	cut := EdgeSet{}
+	for _, b := range fn.Blocks {
+		if iff, ok := b.Instrs[len(b.Instrs)-1].(*ssa.If); ok {
+			if v, known := c.condUnderV(iff.Cond, assign, assignV); known {
+				if v {
+					cut[Edge{b, 1}] = true
+				} else {
+					cut[Edge{b, 0}] = true
+				}
+			}
+		}
+	}
+	return reachFrom(fn.Blocks[0], cut), cut
+}
+
+// feasibleIn: indices of the phi edges whose predecessor is reachable over an edge that was not cut.
+func feasibleIn(phi *ssa.Phi, reach map[*ssa.BasicBlock]bool, cut EdgeSet) []int {
+	var out []int
+	b := phi.Block()
+	for i, p := range b.Preds {
+		if !reach[p] {
+			continue
+		}
+		open := false
+		for si, s := range p.Succs {
+			if s == b && !cut[Edge{p, si}] {
+				open = true
+			}
+		}
+		if open {
+			out = append(out, i)
+		}
+	}
+	return out
+}
+
+// resolveUnder follows phis that have a single feasible incoming edge.
+func (c *cli) resolveUnder(v ssa.Value, reach map[*ssa.BasicBlock]bool, cut EdgeSet) ssa.Value {
+	for i := 0; i < 20; i++ {
+		v = strip(v)
+		phi, ok := v.(*ssa.Phi)
+		if !ok {
+			return v
+		}
+		in := feasibleIn(phi, reach, cut)
+		if len(in) == 0 {
+			return v
+		}
+		first := c.resolveUnder(phi.Edges[in[0]], reach, cut)
+		for _, j := range in[1:] {
+			if c.resolveUnder(phi.Edges[j], reach, cut) != first {
+				return v
+			}
+		}
+		v = first
+	}
+	return v
+}
+
+// bindAliases binds x and every phi of fn that resolves to x to the constant k.
+func (c *cli) bindAliases(fn *ssa.Function, x ssa.Value, k string, reach map[*ssa.BasicBlock]bool, cut EdgeSet, bind map[ssa.Value]string) {
+	bind[x] = k
+	for _, b := range fn.Blocks {
+		for _, in := range b.Instrs {
+			phi, ok := in.(*ssa.Phi)
+			if !ok {
+				break
+			}
+			if reach[b] && c.resolveUnder(phi, reach, cut) == x {
+				bind[phi] = k
+			}
+		}
+	}
+}
+
+type boolEval struct {
+	c     *cli
+	depth int
+}
+
+// eval decides boolean v of fn (used in block at) under flag assignment and string bindings.
+func (ev *boolEval) eval(fn *ssa.Function, v ssa.Value, at *ssa.BasicBlock, assign map[string]string, bind map[ssa.Value]string) (val, known bool, why string) {
+	c := ev.c
+	reach, cut := c.reachCutUnderV(fn, assign, bind)
+	var rec func(v ssa.Value, depth int) (bool, bool, string)
+	rec = func(v ssa.Value, depth int) (bool, bool, string) {
+		if depth > 12 {
+			return false, false, "nesting too deep"
+		}
+		v = strip(v)
+		if b, ok := constBool(v); ok {
+			return b, true, ""
+		}
+		if val, known := c.condUnderV(v, assign, bind); known {
+			return val, true, ""
+		}
+		switch x := v.(type) {
+		case *ssa.UnOp:
+			if x.Op == token.NOT {
+				val, known, why := rec(x.X, depth+1)
+				return !val, known, why
+			}
+		case *ssa.BinOp:
+			if x.Op == token.EQL || x.Op == token.NEQ {
+				// both sides bound or constant strings
+				l, okl := ev.strOf(x.X, reach, cut, bind, assign)
+				rr, okr := ev.strOf(x.Y, reach, cut, bind, assign)
+				if okl && okr && l != otherValue && rr != otherValue {
+					return (l == rr) == (x.Op == token.EQL), true, ""
+				}
+				if okl && okr && (l == otherValue) != (rr == otherValue) {
+					return x.Op == token.NEQ, true, ""
+				}
+			}
+		case *ssa.Phi:
+			in := feasibleIn(x, reach, cut)
+			if len(in) == 0 {
+				return false, false, "no feasible edge into " + valueName(x)
+			}
+			first, known, why := rec(x.Edges[in[0]], depth+1)
+			if !known {
+				return false, false, why
+			}
+			for _, j := range in[1:] {
+				o, known, why := rec(x.Edges[j], depth+1)
+				if !known {
+					return false, false, why
+				}
+				if o != first {
+					return false, false, "the value depends on something other than the -f flag and the rendered text (" + valueName(x) + ")"
+				}
+			}
+			return first, true, ""
+		case *ssa.Call:
+			callee := staticCallee(x)
+			if callee == nil || callee.Pkg != c.pkg || callee.Blocks == nil || ev.depth > 3 {
+				break
+			}
+			res := callee.Signature.Results()
+			if res.Len() != 1 {
+				break
+			}
+			inner := map[ssa.Value]string{}
+			innerAssign := assign
+			for i, a := range x.Call.Args {
+				if i >= len(callee.Params) {
+					break
+				}
+				if s, ok := ev.strOf(a, reach, cut, bind, assign); ok {
+					inner[callee.Params[i]] = s
+				}
+			}
+			sub := &boolEval{c: c, depth: ev.depth + 1}
+			rch, _ := c.reachCutUnderV(callee, innerAssign, inner)
+			var out, have bool
+			for _, ret := range returnsOf(callee) {
+				if !rch[ret.Block()] {
+					continue
+				}
+				val, known, why := sub.eval(callee, ret.Results[0], ret.Block(), innerAssign, inner)
+				if !known {
+					return false, false, "in " + fnName(callee) + ": " + why
+				}
+				if have && val != out {
+					return false, false, fnName(callee) + " does not decide its result from its arguments"
+				}
+				out, have = val, true
+			}
+			if have {
+				return out, true, ""
+			}
+		}
+		return false, false, "it is computed from " + valueName(v) + ", not from comparing the rendered output with the empty rendering"
+	}
+	_ = at
+	return rec(v, 0)
+}
+
+// strOf: the string a value is bound to (a constant, a bound value, or a flag with an assigned value).
+func (ev *boolEval) strOf(v ssa.Value, reach map[*ssa.BasicBlock]bool, cut EdgeSet, bind map[ssa.Value]string, assign map[string]string) (string, bool) {
+	v = strip(v)
+	if k, ok := v.(*ssa.Const); ok && k.Value != nil && k.Value.Kind() == constant.String {
+		return k.Value.ExactString(), true
+	}
+	if s, ok := bind[v]; ok {
+		return s, true
+	}
+	if f := ev.c.flagOf(v); f != "" {
+		if s, ok := assign[f]; ok {
+			return s, true
+		}
+	}
+	r := ev.c.resolveUnder(v, reach, cut)
+	if r != v {
+		return ev.strOf(r, reach, cut, bind, assign)
+	}
+	return "", false
 }
 
 // renderCallName: v is the (string) result of a library Render* call.
